@@ -145,6 +145,12 @@ def check_threshold_optimizer(case):
     from fairlearn.postprocessing import ThresholdOptimizer
 
     table, y, scores = case["table"], case["y"], case["scores"]
+    if case.get("tile"):
+        # the same rows repeated up to >= 4 096 rows: long tables must be grouped like short ones, and short
+        # prediction batches must find the rules learned from the long training table
+        k = -(-4100 // len(table))
+        table, y, scores = table * k, y * k, scores * k
+        case = dict(case, perm=list(range(len(table)))[::-1], subset=case.get("subset", []))
     n = len(table)
     part = _tuples_partition(table)
     X = np.asarray(scores, dtype=float).reshape(n, 1)
@@ -200,7 +206,7 @@ def check_threshold_optimizer(case):
         vals = [stats[t][m] for t in part]
         if max(vals) - min(vals) > 1e-9:
             raise PropertyViolation(f"ThresholdOptimizer({case['constraint']}): {m} differs between tuple groups at predict time: { {t: stats[t][m] for t in part} } - the rule applied to a tuple is not the rule learned for it")
-    return _tags(part) + ["kind:" + case["kind"]]
+    return _tags(part) + ["kind:" + case["kind"]] + (["long_table>=4096"] if case.get("tile") else [])
 
 
 def check_reduction(case):
@@ -390,7 +396,8 @@ def _to_cases(draw):
                                                 "false_positive_rate_parity"])),
             "grid_size": draw(st.sampled_from([10, 1000])), "flip": draw(st.booleans()),
             "perm": list(draw(st.permutations(range(n)))),
-            "subset": draw(st.lists(st.integers(0, 40), min_size=0, max_size=5))}
+            "subset": draw(st.lists(st.integers(0, 40), min_size=0, max_size=5)),
+            "tile": draw(st.integers(0, 11)) == 0}
 
 
 @st.composite
